@@ -659,6 +659,11 @@ func (s *SegmentBase) DocNumbers(ids []string) (*roaring.Bitmap, error) {
 			return nil, err
 		}
 
+		if idDict == nil || idDict.fst == nil {
+			// no _id dictionary (a segment without documents)
+			return rv, nil
+		}
+
 		postingsList := emptyPostingsList
 
 		sMax, err := idDict.fst.GetMaxKey()
